@@ -34,3 +34,7 @@ def run(repo, res, tier):
     from .. import tablerules
     tablerules.rule_tb1(repo, res)
     tablerules.rule_tb5(repo, res)
+    # the strict reader lexes the text as written: no whole-document rewrite in PVLParser.parse or in the lexer
+    from .. import hookrules as _hk1, lexrules as _lx1
+    _hk1.rule_lexer_args(repo, res)
+    _lx1.rule_lex_text(repo, res)
